@@ -134,6 +134,11 @@ func c08Seeds(r *kit.Rand) []c08Seed {
 		body := c08JPEG(r, 8+r.Intn(40), 8+r.Intn(40), i%2 == 0)
 		seeds = append(seeds, c08Seed{"DCTDecode", nil, body, 0})
 	}
+	// larger images: the decoder's producer goroutine outlives the first buffer
+	for i := 0; i < 3; i++ {
+		body := c08JPEG(r, 100+r.Intn(160), 100+r.Intn(160), i%2 == 0)
+		seeds = append(seeds, c08Seed{"DCTDecode", nil, body, 0})
+	}
 	for _, name := range []string{"cmyk.jpg", "progressive.jpg"} {
 		if body, err := os.ReadFile(filepath.Join(c08RepoDir(), "internal/filter/dct/testdata", name)); err == nil && len(body) < 1<<20 {
 			seeds = append(seeds, c08Seed{"DCTDecode", nil, body, 0})
@@ -435,11 +440,14 @@ func c08Gen(r *kit.Rand, seeds []c08Seed, quick bool) c08Case {
 		cs.class = "helper-goroutine-position"
 		// the two goroutine-backed decoders at every chain position, with a layer that fails
 		dctSeed := s
+		var dcts []c08Seed
 		for _, t := range seeds {
 			if t.filter == "DCTDecode" {
-				dctSeed = t
-				break
+				dcts = append(dcts, t)
 			}
+		}
+		if len(dcts) > 0 {
+			dctSeed = kit.Pick(r, dcts)
 		}
 		pos := r.Intn(3)
 		names := pdf.Array{}
